@@ -198,8 +198,96 @@ theorem makeModsSingle_eq (o : Opts) (ads : List Matchable) :
     by_cases c2 : ((o.action == .retain || o.action == .crop) && decide (o.times > 1) && !ads.isEmpty) = true <;>
     by_cases c3 : (o.renameGiven && (!o.pfx.isEmpty || !o.sfx.isEmpty)) = true <;>
     simp only [bind, Except.bind, pure, Except.pure, throw, throwThe, MonadExceptOf.throw, c1, c2, c3, if_true, if_false,
-      Bool.true_or, Bool.or_true, Bool.false_or, Bool.or_false, Bool.false_eq_true, bothEndMods_eq, qtrimOf_toList,
-      adapterStage, nextseqStage, polyAStage, shortenStage, renameStage, List.append_assoc, ite_true, ite_false,
-      Bool.not_eq_true] <;> rfl
+      Bool.or_true, Bool.or_false, Bool.false_eq_true, bothEndMods_eq, qtrimOf_toList,
+      adapterStage, nextseqStage, polyAStage, shortenStage, renameStage, List.append_assoc] <;> rfl
+
+/-! ### the paired-end assembly, in closed form -/
+
+/-- the R1 quality trimmer: `-q` -/
+def qR1 (o : Opts) : Option SMod := qtrimOf o.qualityCutoff o.qualityBase
+/-- the R2 quality trimmer: `-Q` if given (`-Q 0`: none), a copy of R1's otherwise -/
+def qR2 (o : Opts) : Option SMod :=
+  match o.qualityCutoff2 with
+  | none => qR1 o
+  | some q => qtrimOf (some q) o.qualityBase
+
+def cutterOf (o : Opts) (ads : List Matchable) : Option Cutter := if ads.isEmpty then none else some ⟨ads, o.times, o.action⟩
+
+def adapterStageP (o : Opts) (ads1 ads2 : List Matchable) (first1 first2 : Bool) : List PMod :=
+  if o.pairAdapters then [.pairAdapters ads1 ads2 o.action first1 first2]
+  else if (cutterOf o ads1).isNone && (cutterOf o ads2).isNone then []
+  else if o.revcomp then [.pairedRevcomp (cutterOf o ads1) (cutterOf o ads2) (!o.renameGiven) first1 first2]
+  else [.wrap ((cutterOf o ads1).map (fun c => SMod.adapters c first1)) ((cutterOf o ads2).map (fun c => SMod.adapters c first2))]
+
+def shortenStageP (o : Opts) : List PMod :=
+  match o.length, o.length2 with
+  | some a, some b => [.wrap (some (.shorten a)) (some (.shorten b))]     -- `-l a -L b`
+  | some a, none => [.wrap (some (.shorten a)) (some (.shorten a))]       -- `-l a`: both
+  | none, some b => [.wrap none (some (.shorten b))]                      -- `-L b`: R2 only
+  | none, none => []
+
+def onR1 (m : SMod) : PMod := .wrap (some m) none
+def onR2 (m : SMod) : PMod := .wrap none (some m)
+def onBoth (m : SMod) : PMod := .wrap (some m) (some m)
+
+def documentedPaired (o : Opts) (ads1 ads2 : List Matchable) : List PMod :=
+  (cutStage o.cut).map onR1 ++ (cutStage o.cut2).map onR2 ++
+  (nextseqStage o).map onBoth ++
+  (if (qR1 o).isSome || (qR2 o).isSome then [.wrap (qR1 o) (qR2 o)] else []) ++
+  adapterStageP o ads1 ads2 ((cutStage o.cut).isEmpty && o.nextseqTrim.isNone && (qR1 o).isNone)
+    ((cutStage o.cut2).isEmpty && o.nextseqTrim.isNone && (qR2 o).isNone) ++
+  (if o.polyA then [.wrap (some (.polyA false)) (some (.polyA true))] else []) ++
+  shortenStageP o ++
+  (bothEndMods o).map onBoth ++
+  (match o.rename with | some t => [.pairedRename t t] | none => [])
+
+def rejectedPaired (o : Opts) (ads1 ads2 : List Matchable) : Bool :=
+  (if o.pairAdapters then o.revcomp || ads1.length != ads2.length || ads1.isEmpty
+   else (o.action == .retain || o.action == .crop) && o.times > 1 && (!ads1.isEmpty || !ads2.isEmpty)) ||
+  (o.renameGiven && (!o.pfx.isEmpty || !o.sfx.isEmpty))
+
+theorem ite_ok {ε α : Type} (c : Prop) [Decidable c] (a b : α) :
+    (if c then (Except.ok a : Except ε α) else Except.ok b) = .ok (if c then a else b) := by split <;> rfl
+
+theorem qR2_eq (o : Opts) :
+    (if (o.qualityCutoff.isSome && o.qualityCutoff2.isNone) = true then qtrimOf o.qualityCutoff o.qualityBase
+      else qtrimOf o.qualityCutoff2 o.qualityBase) = qR2 o := by
+  unfold qR2 qR1
+  cases h1 : o.qualityCutoff <;> cases h2 : o.qualityCutoff2 <;> simp [qtrimOf]
+
+set_option linter.unusedSimpArgs false in
+theorem makeModsPaired_eq (o : Opts) (ads1 ads2 : List Matchable) :
+    makeModsPaired o ads1 ads2 =
+      match cutMods o.cut, cutMods o.cut2 with
+      | .error e, _ => .error e
+      | .ok _, .error e => .error e
+      | .ok _, .ok _ => if rejectedPaired o ads1 ads2 then .error .cmdline else .ok (documentedPaired o ads1 ads2) := by
+  unfold makeModsPaired
+  cases hc : cutMods o.cut with
+  | error e => simp [bind, Except.bind]
+  | ok c1 =>
+    cases hc2 : cutMods o.cut2 with
+    | error e => simp [bind, Except.bind]
+    | ok c2 =>
+      have h1 := cutMods_ok hc
+      have h2 := cutMods_ok hc2
+      subst h1 h2
+      unfold rejectedPaired documentedPaired adapterStageP cutterOf shortenStageP qR1
+      simp only [qR2_eq]
+      by_cases c3 : (o.renameGiven && (!o.pfx.isEmpty || !o.sfx.isEmpty)) = true <;>
+      by_cases cp : o.pairAdapters = true
+      all_goals simp only [cp, if_true, if_false, Bool.false_eq_true]
+      · by_cases cr : o.revcomp = true <;> by_cases cl : (ads1.length != ads2.length || ads1.isEmpty) = true <;>
+        simp [bind, Except.bind, pure, Except.pure, throw, throwThe, MonadExceptOf.throw, c3, cr, cl, onR1, onR2, onBoth, nextseqStage] <;> cases o.nextseqTrim <;> rfl
+      · by_cases ct : ((o.action == Action.retain || o.action == Action.crop) && decide (o.times > 1) &&
+            (!ads1.isEmpty || !ads2.isEmpty)) = true <;>
+        by_cases ce1 : ads1.isEmpty = true <;> by_cases ce2 : ads2.isEmpty = true <;> by_cases cr : o.revcomp = true <;>
+        simp [bind, Except.bind, pure, Except.pure, throw, throwThe, MonadExceptOf.throw, c3, cr, ct, ce1, ce2, onR1, onR2, onBoth, nextseqStage] <;> cases o.nextseqTrim <;> rfl
+      · by_cases cr : o.revcomp = true <;> by_cases cl : (ads1.length != ads2.length || ads1.isEmpty) = true <;>
+        simp [bind, Except.bind, pure, Except.pure, throw, throwThe, MonadExceptOf.throw, c3, cr, cl, onR1, onR2, onBoth, nextseqStage] <;> cases o.nextseqTrim <;> rfl
+      · by_cases ct : ((o.action == Action.retain || o.action == Action.crop) && decide (o.times > 1) &&
+            (!ads1.isEmpty || !ads2.isEmpty)) = true <;>
+        by_cases ce1 : ads1.isEmpty = true <;> by_cases ce2 : ads2.isEmpty = true <;> by_cases cr : o.revcomp = true <;>
+        simp [bind, Except.bind, pure, Except.pure, throw, throwThe, MonadExceptOf.throw, c3, cr, ct, ce1, ce2, onR1, onR2, onBoth, nextseqStage] <;> cases o.nextseqTrim <;> rfl
 
 end Cutadapt
